@@ -612,3 +612,37 @@ def check_arm(ctx, env, c):
 from ..runner import Violation  # noqa: E402
 
 SUBCHECKS.append(Sub("arm", prim_cases(), check_arm, 16000, 400000, ("arm",), ("arm",), setup=arm_backends))
+
+
+# ---- API transcripts: keys, ciphertexts, signatures and hashes are identical whichever back end is used -------
+def transcript_env(cfg):
+    from .. import lib as libmod
+    return [("asm", libmod.get("asm")), ("asm:base", libmod.get("asm", "base")), ("p64", libmod.get("p64")), ("p32", libmod.get("p32"))]
+
+
+def transcript_cases():
+    from . import c19
+    return c19.scheme_cases()
+
+
+def check_transcript(ctx, env, c):
+    from . import c19, c16
+    ctx.count(c, True, "transcript")
+    ref_name, ref = None, None
+    for name, lib in env:
+        t = c19._run_history(ctx, lib, c["h"], c["msg"], c["comp"], False)
+        q = c["lq"]
+        case = {"hash": q["hash"], "s": 0, "via": "setup", "t": 1, "z": (1, 0), "len": q["len"], "stream": q["stream"], "seed": q["seed"], "neg": "none",
+                "hash2": 0, "s2": 0, "full": False, "cpp": False}
+        c16.check(c19._Null(), lib, case)
+        t.append(lib.hash_last())
+        ctx.event("backend/" + name)
+        if ref is None:
+            ref_name, ref = name, t
+            continue
+        expect(len(t) == len(ref), "transcript/%s/length" % name, "transcripts differ in length")
+        for i, (a, b) in enumerate(zip(ref, t)):
+            expect(a == b, "transcript/%s-vs-%s" % (ref_name, name), lambda: "item %d of the API transcript differs between back ends (%d vs %d bytes)" % (i, len(a), len(b)))
+
+
+SUBCHECKS.append(Sub("transcripts", transcript_cases(), check_transcript, 240, 6000, ("all4",), ("all4",), setup=transcript_env))
